@@ -100,3 +100,77 @@ var c15Neutral = []Mutant{
 		Old: "		if m.PURL == nil && len(m.CPEs) == 0 {\n			log.Warnf(\"Neither CPE nor PURL found for package: %+v\", spdxPkg)",
 		New: "		if len(m.CPEs) == 0 && m.PURL == nil {\n			log.Warnf(\"Neither CPE nor PURL found for package: %+v\", spdxPkg)"},
 }
+
+const (
+	imageGo  = "artifact/image/layerscanning/image/image.go"
+	vulnsGo  = "guidedremediation/internal/vulns/vulns.go"
+	detGo    = "detector/detector.go"
+	unpackGo = "artifact/image/unpack/unpack.go"
+	pkgjsGo  = "guidedremediation/internal/manifest/npm/packagejson.go"
+)
+
+var c04Neutral = []Mutant{
+	{Name: "neutral-fill-guards-merged", File: imageGo,
+		Old: "		if node := chainLayer.fileNodeTree.Get(virtualPath); node != nil {\n			// A newer version of the file already exists on a later chainLayer.\n			// Since we do not want to overwrite a later layer with information\n			// written in an earlier layer, skip this file.\n			continue\n		}\n\n		// Check for a whited out parent directory.\n		if inWhiteoutDir(chainLayer, virtualPath) {\n			// The entire directory has been deleted, so no need to save this file.\n			continue\n		}\n",
+		New: "		if chainLayer.fileNodeTree.Get(virtualPath) != nil || inWhiteoutDir(chainLayer, virtualPath) {\n			continue\n		}\n"},
+	{Name: "neutral-ancestor-test-nested", File: imageGo,
+		Old: "		if node != nil && (node.isWhiteout || !node.IsDir()) {\n			return true\n		}\n",
+		New: "		if node != nil {\n			if node.isWhiteout || !node.IsDir() {\n				return true\n			}\n		}\n"},
+	{Name: "neutral-ancestor-loop-condition", File: imageGo,
+		Old: "	for {\n		if filePath == \"\" {\n			break\n		}\n		dirname := filepath.Dir(filePath)\n",
+		New: "	for filePath != \"\" {\n		dirname := filepath.Dir(filePath)\n"},
+}
+
+var c18Neutral = []Mutant{
+	{Name: "neutral-same-package-test-swapped", File: vulnsGo,
+		Old: "		if affected.Package.Ecosystem != pkg.Ecosystem() ||\n			affected.Package.Name != pkg.Name {\n			continue\n		}\n",
+		New: "		if affected.Package.Name != pkg.Name ||\n			affected.Package.Ecosystem != pkg.Ecosystem() {\n			continue\n		}\n"},
+	{Name: "neutral-listed-bound-first", File: vulnsGo,
+		Old: "		if slices.Contains(affected.Versions, pkg.Version) {\n			return true\n		}\n",
+		New: "		listed := slices.Contains(affected.Versions, pkg.Version)\n		if listed {\n			return true\n		}\n"},
+}
+
+var c20Neutral = []Mutant{
+	{Name: "neutral-detector-name-bound", File: detGo,
+		Old: "		for _, f := range results {\n			f.Detectors = []string{d.Name()}\n		}\n",
+		New: "		for i := range results {\n			results[i].Detectors = []string{d.Name()}\n		}\n"},
+	{Name: "neutral-validate-bound", File: detGo,
+		Old: "	if err := validateAdvisories(findings); err != nil {\n		return []*Finding{}, status, err\n	}\n	return findings, status, nil\n",
+		New: "	verr := validateAdvisories(findings)\n	if verr != nil {\n		return []*Finding{}, status, verr\n	}\n	return findings, status, nil\n"},
+	{Name: "neutral-advisory-checks-merged", File: detGo,
+		Old: "		if adv, ok := ids[*f.Adv.ID]; ok {\n			if !reflect.DeepEqual(adv, *f.Adv) {\n				return fmt.Errorf(\"multiple non-identical advisories with ID %v\", f.Adv.ID)\n			}\n		}\n",
+		New: "		if adv, ok := ids[*f.Adv.ID]; ok && !reflect.DeepEqual(adv, *f.Adv) {\n			return fmt.Errorf(\"multiple non-identical advisories with ID %v\", f.Adv.ID)\n		}\n"},
+}
+
+var c06Neutral = []Mutant{
+	{Name: "neutral-zipslip-test-swapped", File: unpackGo,
+		Old: "		if cleanPath == \"..\" || strings.HasPrefix(cleanPath, \"../\") {",
+		New: "		if strings.HasPrefix(cleanPath, \"../\") || cleanPath == \"..\" {"},
+	{Name: "neutral-rel-test-swapped", File: unpackGo,
+		Old: "	return rel == \"..\" || strings.HasPrefix(rel, \"..\"+string(filepath.Separator))\n",
+		New: "	escapes := strings.HasPrefix(rel, \"..\"+string(filepath.Separator)) || rel == \"..\"\n	return escapes\n"},
+}
+
+var c13Neutral = []Mutant{
+	{Name: "neutral-dev-version-inline", File: pkgjsGo,
+		Old: "			if res := gjson.GetBytes(manif, depStr); res.Exists() {\n				ver := res.String()\n				if ver != origVer {\n					return fmt.Errorf(\"original dependency version does not match patch: %s %q != %q\", name, ver, origVer)\n				}\n",
+		New: "			if res := gjson.GetBytes(manif, depStr); res.Exists() {\n				if ver := res.String(); origVer != ver {\n					return fmt.Errorf(\"original dependency version does not match patch: %s %q != %q\", name, ver, origVer)\n				}\n"},
+	{Name: "neutral-not-found-positive-form", File: pkgjsGo,
+		Old: "			if !alreadyMatched {\n				return fmt.Errorf(\"dependency to patch not found in %s: %s\", original.FilePath(), req.Name)\n			}\n",
+		New: "			if alreadyMatched {\n				continue\n			}\n			return fmt.Errorf(\"dependency to patch not found in %s: %s\", original.FilePath(), req.Name)\n"},
+}
+
+var c19Neutral = []Mutant{
+	{Name: "neutral-filter-continue-form", File: "extractor/standalone/list/list.go",
+		Old: "		if err := plugin.ValidateRequirements(ex, capabs); err == nil {\n			result = append(result, ex)\n		}\n",
+		New: "		if err := plugin.ValidateRequirements(ex, capabs); err != nil {\n			continue\n		}\n		result = append(result, ex)\n"},
+	{Name: "neutral-enable-errors-swapped", File: "scalibr.go",
+		Old: "			if err != nil && sterr != nil {", New: "			if sterr != nil && err != nil {"},
+}
+
+var c14Neutral = []Mutant{
+	validTypeHoisted,
+	{Name: "neutral-cdx-purl-bound-first", File: convGo,
+		Old: "		if p := ToPURL(pkg); p != nil {\n			comp.PackageURL = p.String()\n		}\n",
+		New: "		p := ToPURL(pkg)\n		if p != nil {\n			comp.PackageURL = p.String()\n		}\n"},
+}
